@@ -42,10 +42,11 @@ def slogdet_stub(M):
 
 
 def scaled_identity(c, n, name='t'):
-    """t * I_n with log(det) = n*log(t) in [-3000, 3000] and t within
-    [2^-21, 2^21] (sensor variances 1e-12..1e12 => precision entries 1e-12..1e12
-    would be [2^-40,2^40]; the narrower range already leaves the double range)."""
-    t = c.real(name, 2.0 ** -21, 2.0 ** 21)
+    """t * I_n with ln det = n ln t in [-3000, 3000] and t within [2^-40, 2^40]
+    (sensor variances 1e-12 .. 1e12)."""
+    # |ln det| = n |ln t| <= 3000  <=>  |log2 t| <= 4328/n ; sensor scale 1e-12..1e12 ~ 2^+-40
+    k = min(40, 4328 // n)
+    t = c.real(name, 2.0 ** -k, 2.0 ** k)
     M = np.zeros((n, n))
     for i in range(n):
         M._b.data[i * n + i] = t
